@@ -1,17 +1,31 @@
 #!/usr/bin/env bash
-# usage: try_seeded.sh <patch.diff> <tier> <ID> [<ID> ...]
-# Applies a seeded change to /repo's working tree, runs the named checks, and always undoes the change.
+# usage: try_seeded.sh <SEEDED-ID> <tier> <CHECK-ID> [<CHECK-ID> ...]
+# Applies /verif/seeded/<SEEDED-ID>/patch.diff to /repo's working tree, runs the named checks, records what
+# each reported in /verif/seeded/<SEEDED-ID>/meta.json ("detection"), and always undoes the change.
 set -u
-PATCH="$1"; TIER="$2"; shift 2
+SID="$1"; TIER="$2"; shift 2
+PATCH="/verif/seeded/$SID/patch.diff"
+[ -f "$PATCH" ] || PATCH="$SID"
 cd /repo || exit 2
 if ! git diff --quiet; then echo "refusing: /repo working tree is dirty"; exit 2; fi
 git apply "$PATCH" || { echo "patch does not apply"; exit 2; }
 trap 'git -C /repo checkout -- . ; echo "[/repo restored]"' EXIT
 cd /verif
 for id in "$@"; do
-  out=$(timeout 900 ./check "$id" --tier "$TIER" 2>&1); rc=$?
+  out=$(timeout 1800 ./check "$id" --tier "$TIER" 2>&1); rc=$?
   nv=$(echo "$out" | grep -c '^VIOLATION')
+  first=$(echo "$out" | grep -A1 '^VIOLATION' | grep -v '^VIOLATION' | grep -v '^--' | head -1 | cut -c1-500)
   echo "== $id exit=$rc violation_lines=$nv"
-  echo "$out" | grep -A1 '^VIOLATION' | grep -v '^--' | head -4 | cut -c1-400
+  echo "   $first" | cut -c1-400
   echo "$out" | grep -E "tier=|MACHINERY" | tail -2 | cut -c1-300
+  if [ -f "/verif/seeded/$SID/meta.json" ]; then
+    python3 - "$SID" "$id" "$TIER" "$rc" "$first" <<'PY'
+import json, sys
+sid, cid, tier, rc, first = sys.argv[1:6]
+p = f"/verif/seeded/{sid}/meta.json"
+m = json.load(open(p))
+m.setdefault("detection", {})[f"{cid}/{tier}"] = {"exit": int(rc), "detected": int(rc) == 1, "first_violation": first.strip()}
+json.dump(m, open(p, "w"), indent=1)
+PY
+  fi
 done
